@@ -2,6 +2,7 @@
 From Coq Require Import List ZArith Bool Lia.
 From Pico Require Import Base.Res Base.Mach Wire.Wire Schema.Types Schema.Scalar Ref.Ref
   Wire.ZigZagProofs Schema.ScalarProofs Enc.Enc Dec.Dec Dec.ReaderProofs gen.ConvGen gen.TypesTable.
+From Pico Require Import Dec.Dec Schema.ErrName.
 Import ListNotations.
 Open Scope Z_scope.
 
@@ -75,6 +76,11 @@ Proof. intros y H. rewrite gen_decode_zigzag32_ok. exact (decode_zigzag32_spec y
 Theorem C15_source_table : gen_types_table = Schema.TableSpec.expected_types_table.
 Proof. exact types_table_ok. Qed.
 
+(* a Repeated* reader only appends: on ANY input (valid or not, packed or not, however many records, error half-way or
+   not) the list it leaves is the list it found followed by new elements - nothing decoded earlier is lost or rewritten *)
+Theorem C15_repeated_keeps_earlier : forall k f fuel st vs, exists xs, snd (dec_repeated fuel k f st vs) = vs ++ xs.
+Proof. intros k f fuel st vs. exact (repeated_reader_appends k f fuel st vs). Qed.
+
 Example C15_nonvacuous :
   scalar_ok KSint32 (VInt (-2147483648)) = true /\ closed_form KSint32 (-2147483648) = [255; 255; 255; 255; 15] /\
   scalar_ok KSfixed32 (VInt (-1)) = true /\ closed_form KSfixed32 (-1) = [255; 255; 255; 255] /\
@@ -86,4 +92,5 @@ Print Assumptions C15_enc_element.
 Print Assumptions C15_dec.
 Print Assumptions C15_dec_element.
 Print Assumptions C15_source_zigzag32.
+Print Assumptions C15_repeated_keeps_earlier.
 Print Assumptions C15_source_unzigzag32.
